@@ -22,5 +22,6 @@ CONSTANTS
   MaxGen = 1
   MaxDup = 0
   Engine = "engine"
+  GateUsage = FALSE
 SPECIFICATION FairSpec
 PROPERTY EventuallyScheduled
